@@ -57,7 +57,9 @@ def cases(tier, seed):
                'family': '1d' if (i // 4) % 2 == 0 else '2d', 'fold': (i // 8) % 3 == 0,
                'full_cost': (i // 3) % 2 == 0, 'train': (i // 5) % 2 == 0,
                # (Gumbel noise is comparable: every observed forward is seeded)
-               'gumbel': kind != 'pit' and (i // 9) % 4 == 0, 'hard': (i // 7) % 3 == 0}
+               'gumbel': kind != 'pit' and (i // 9) % 4 == 0, 'hard': (i // 7) % 3 == 0,
+               # (the constructor temperature written as a Python int in a third of the cases)
+               'temperature': [1.0, 5, 2][(i // 4) % 3]}
         cs.append({'cfg': cfg, 'k': i % 6, 'n_opts': (i // 6) % 4, 'move_nas': i % 3 != 0,
                    'temp_from_ckpt': (i // 4) % 2 == 0,
                    # the architecture is logged (summary / str / export) before the checkpoint
